@@ -272,6 +272,38 @@ Proof.
   apply inv_winv. apply inv_new. exact Hd.
 Qed.
 
+(** The discipline is decidable: the boolean checker the runner evaluates on every script of the
+    correspondence run (scripts it accepts get the specification side [spec_script] printed next
+    to the model's result). *)
+Fixpoint wf_scriptb (lim : Z) (ops : list Z) (p slack : Z) : bool :=
+  match ops with
+  | [] => true
+  | op :: tl =>
+    if 0 <=? op then (op <=? 24) && (op <=? slack) && (p + op <=? lim) && wf_scriptb lim tl (p + op) 56
+    else if op =? -1 then (p <? lim) && wf_scriptb lim tl p (Z.max slack 32)
+    else let k := -100 - op in
+         (0 <=? k) && (k <=? slack) && (p + k <=? lim) && wf_scriptb lim tl (p + k) (slack - k)
+  end.
+
+Lemma wf_scriptb_sound lim : forall ops p slack, wf_scriptb lim ops p slack = true -> wf_script lim ops p slack.
+Proof.
+  induction ops as [|op tl IH]; intros p slack H; cbn [wf_scriptb wf_script] in *; [exact I|].
+  destruct (0 <=? op).
+  - apply andb_prop in H. destruct H as [H H4]. apply andb_prop in H. destruct H as [H H3].
+    apply andb_prop in H. destruct H as [H1 H2].
+    split; [lia|]. split; [lia|]. split; [lia|]. apply IH. exact H4.
+  - destruct (op =? -1).
+    + apply andb_prop in H. destruct H as [H1 H2]. split; [lia|]. apply IH. exact H2.
+    + cbv zeta in H. apply andb_prop in H. destruct H as [H H4]. apply andb_prop in H. destruct H as [H H3].
+      apply andb_prop in H. destruct H as [H1 H2].
+      split; [lia|]. split; [lia|]. apply IH. exact H4.
+Qed.
+
+Theorem bitreader_script_refines_checked : forall data ops,
+  bytes_ok data -> wf_scriptb (8 * Z.of_nat (length data)) ops 0 56 = true ->
+  br_run ops (br_new data) = spec_script (le_value data) ops 0.
+Proof. intros data ops Hd H. apply bitreader_script_refines; [exact Hd|]. apply wf_scriptb_sound. exact H. Qed.
+
 (** Non-vacuity: a 12-byte buffer, a read, then the symbol-decoder pattern twice. *)
 Example script_example :
   let data := [1; 2; 3; 4; 5; 6; 7; 8; 9; 10; 11; 12] in
